@@ -369,7 +369,14 @@ func (fr *Frame) loopMods(li *LoopInfo) *ModSet {
 		// inlined instance: parameters are opaque here
 		subst = nil
 	}
+	// deterministic order (block index): the order of the write targets fixes the order of the
+	// havocked references, which mode R pairs position by position between the two runs
+	var blocks []*ssa.BasicBlock
 	for b := range li.blocks {
+		blocks = append(blocks, b)
+	}
+	sort.Slice(blocks, func(i, j int) bool { return blocks[i].Index < blocks[j].Index })
+	for _, b := range blocks {
 		w.block(b, subst)
 	}
 	for b := range li.blocks {
